@@ -16,7 +16,7 @@ RULE = ("every forest with <= n leaves, <= g groups, depth <= d over a 9-leaf po
         "single-leaf respelling (long, partial paths, lower/UPPER case), every spacing style and single-position blank "
         "insertion, every permutation of each group's members (one group at a time) and the all-groups reversal; "
         "duplicate family: every subtree G (<= 3 leaves, depth <= 2) x every recursive reordering G' x 0-2 extra siblings "
-        "x every arrangement, at top level and nested; reserved family: ordered pairs (thorough: triples) of 20 entries "
+        "x every arrangement, at top level and nested; reserved family: ordered pairs (thorough: triples) of 27 entries "
         "around the reserved tags x the same order / spelling rewrites.  distinct case = (tree, rewrite); non-trivial = rewrite text "
         "differs from the original text; state = canonical tree; transition = one validation of the implementation")
 ASSUMPTIONS = [
@@ -299,10 +299,15 @@ def reserved_items(st):
     cand = [[DUR, [R]], [B, [DUR, [R]]], [DLY, ON, DEF], [DLY, ON], [DUR, R, [B]], [DUR], [ON, DEF, [G]], [OFF, DEF],
             [EC, [R]], [DLY, [B]], [DUR, DLY, [R]], [IN, DEF], [G, [ON, DEF]], [DLY, OFF, DEF], [B, [EC, [R]]],
             [DLY, EC, [R]], [DUR, EC, [R]], [OFF, DEF, [G]], [ON, DEF, [G], [R]]]
+    # expanded definitions (right and wrong content; their members get reordered by the rewrites) and wrong Def tags
+    P1, P2 = Leaf(st.plain3[0]), Leaf(st.plain3[1])       # the content of definition Pl (c01.Setup)
+    DEFX = Leaf(raw="Def-expand/Pl")
+    cand += [[DEFX, [P1, P2]], [ON, [DEFX, [P1, P2]], [G]], [DEFX, [G]], [B, [DEFX, [P1, P2]]], Leaf(raw="Def/Nope"),
+             [Leaf(raw="Def/Nope"), B], Leaf(raw="Def/Pl/3")]
 
     def complete(x):
         return all(complete(y) if isinstance(y, list) else y is not None for y in x)
-    return items + [c for c in cand if complete(c)]
+    return items + [c for c in cand if isinstance(c, Leaf) or complete(c)]
 
 
 def worker_reserved(rec, shard, nshards, setups, triples, seed):
@@ -544,7 +549,7 @@ def run(ctx):
     ctx.rec.notes["bounds"] = {"schemas": files, "trees(n,g,d)": {files[0]: bounds, "others": (3, 2, 3)},
                                "pool": {s.label: [repr(x) for x in make_pool(s)] for s in setups},
                                "dup_family": "G<=3 leaves depth<=2, 0-2 extra siblings, all arrangements, top+nested",
-                               "reserved_family": "ordered pairs (thorough: + triples) of 20 entries built around Duration / "
+                               "reserved_family": "ordered pairs (thorough: + triples) of 27 entries built around Duration / "
                                                   "Delay / Onset / Offset / Inset / Event-context / Def; every one-group "
                                                   "permutation, the reversal and every single-leaf respelling"}
     ctx.parallel(worker_trees, setups[:1], bounds, ctx.seed)
